@@ -411,7 +411,10 @@ def eval_get_c_name(ctx, s, groups, cases):
             if "err" in it:
                 continue
             c = cases[i]
-            plain = not re.search(r"\b(const|volatile|__restrict|restrict)\b|\$|__stdcall|__cdecl", it["marked"])
+            # texts are compared only when the Python type object and the backend ctype carry the same name (not when
+            # qualifiers/ABI words are dropped by the backend, nor when a typedef forced another name on a struct)
+            plain = (not re.search(r"\b(const|volatile|__restrict|restrict)\b|\$|__stdcall|__cdecl", it["marked"])
+                     and norm(it["marked"].replace("&", "")) == norm(it["cname"]))
             for x, d in zip(c["xs"], it["x"]):
                 ctx.count()
                 if "get_c_name_err" in d or "getctype_err" in d:
